@@ -168,11 +168,14 @@ func main() {
 			fmt.Fprintln(os.Stderr, err)
 			os.Exit(2)
 		}
-		z := &zoneEngine{p: p, contracts: coreContracts(), fieldMinLen: map[string]int64{}, useGetters: true}
+		z := &zoneEngine{p: p, contracts: coreContracts(), fieldMinLen: map[string]int64{}, useGetters: true, useHeap: os.Getenv("ZONE_HEAP") != "", entryNonneg: sortCallbackParams(p)}
 		nOK, nBad, nLow := 0, 0, 0
 		lowerOnly := os.Getenv("ZONE_LOWER") != ""
 		for _, f := range p.RepoFuncs {
 			if len(pos) > 0 && !strings.Contains(fnName(f), pos[0]) {
+				continue
+			}
+			if f.Synthetic != "" {
 				continue
 			}
 			z.obls = nil
